@@ -140,7 +140,8 @@ def rules_C03(ctx):
 
 
 def rules_C16(ctx):
-    return total_for("C16", ctx) + [codec.run(ctx), codec.compact_modes(ctx), structural.wf(ctx, marker_generic=False)]
+    return total_for("C16", ctx) + overflow_for("C16", ctx) + [codec.run(ctx), codec.compact_modes(ctx),
+                                                               structural.wf(ctx, marker_generic=False)]
 
 
 def overflow_for(pid, ctx):
@@ -148,7 +149,7 @@ def overflow_for(pid, ctx):
 
 
 def rules_C17(ctx):
-    return total_for("C17", ctx) + overflow_for("C17", ctx) + [guard.c17(ctx)]
+    return total_for("C17", ctx) + overflow_for("C17", ctx) + [guard.c17(ctx), guard.fixed_length(ctx)]
 
 
 def rules_C08(ctx):
@@ -276,16 +277,20 @@ PROPS = {
              "the value range the encoder emits is contained in the range the decoder accepts (R-CODEC/compact-modes: "
              "intervals of bit_len per encoder arm vs intervals of the decoded integer per decoder arm); (b) concrete pairs in Pod/ark/primitive-"
              "types impls are well-formed (R-WF); (c) encoders and length/size-hint functions reach no undischarged panic "
-             "site (R-TOTAL)", "round trip, byte-exact reference encodings (seeded C16-postgres-numeric-weight is missed), "
-             "size-hint arithmetic (F16)", rules_C16,
-             ["round trip", "reference encodings", "size-hint arithmetic (F16: scale CompactRefUint::size_hint)"]),
+             "site (R-TOTAL) and, in overflow-checked builds, no undischarged arithmetic-overflow assertion in any "
+             "configuration incl. widths above 256 bits (R-TOTAL/overflow-checks: this is what decides defect F16, the "
+             "`32 - leading_zeros/8` size hint)", "round trip, byte-exact reference encodings (seeded C16-postgres-"
+             "numeric-weight is missed), the value of size hints beyond not overflowing", rules_C16,
+             ["round trip", "reference encodings", "exact value of length / size-hint functions"]),
     "C17": P("C17", "(a) every decoder entry point (serde, rlp, alloy-rlp, fastrlp 0.3/0.4, SCALE fixed+compact, SSZ, "
              "borsh, DER incl. 9 TryFrom impls, postgres, num-bigint, sqlx, diesel, pyo3, bn-rs, byte-slice and string "
-             "parsers: 50 entries) reaches no undischarged panic site in any of 16 (quick) / 70 (thorough) configurations: "
+             "parsers: 50 entries) reaches no undischarged panic site in any of 17 (quick) / 70 (thorough) configurations: "
              "panic-site inventory of the call-graph closure, discharge by interval abstract interpretation, guard "
              "refutation across calls and 25 reviewed rows (R-TOTAL); (b) each canonical decoder constructs its documented "
              "error kinds, and in the three RLP decoders every path to try_from_be_slice passes the leading-zero test "
-             "(R-GUARD/decoders); (c) in a build with arithmetic overflow checks (every debug build) no decoder entry "
+             "(R-GUARD/decoders); the fixed-width decoders (SSZ, serde binary) hand the byte-form parser a slice of exactly "
+             "BYTES bytes in every configuration, so truncated input is an error (R-GUARD/fixed-length, interval of the "
+             "slice length at the call); (c) in a build with arithmetic overflow checks (every debug build) no decoder entry "
              "reaches an undischarged `attempt to <op> with overflow` assertion outside the kernels (R-TOTAL/overflow-"
              "checks on the -C overflow-checks=on MIR: ~880 assertions discharged by intervals, 5 reviewed rows)",
              "that the returned value is the one the input denotes; termination", rules_C17,
